@@ -74,7 +74,13 @@ func queueCase(c string) string {
 		switch f[0] {
 		case "Q":
 			k, _ := strconv.Atoi(f[1])
-			eq.Queue(mkEvents(&next, k))
+			evs := mkEvents(&next, k)
+			eq.Queue(evs)
+			// the producer recycles its slice as soon as Queue has returned (the read-loop idiom buf = buf[:0]):
+			// the queue must have taken the events out of it, not kept the slice
+			for i := range evs {
+				evs[i] = &event.CounterEvent{CMetricName: "recycled", CValue: -1}
+			}
 			r.batches = drain()
 		case "T":
 			clk.TickerCh <- time.Unix(0, 0)
@@ -159,6 +165,9 @@ func queueStressCase(c string) string {
 					seq++
 				}
 				eq.Queue(evs)
+				for i := range evs {
+					evs[i] = &event.CounterEvent{CMetricName: "recycled"} // the producer recycles its slice
+				}
 				if rnd.Intn(3) == 0 {
 					time.Sleep(time.Duration(rnd.Intn(50)) * time.Microsecond)
 				}
